@@ -155,6 +155,13 @@ static void on_signal(int sig) {
   emit_crash_line(sig == SIGALRM ? "timeout" : "signal", sig);
   _exit(sig == SIGALRM ? 75 : 70);
 }
+// Every forked copy (expected abort, process exit, minimiser probe, fresh-process reference) gets its own watchdog and
+// lets go of the result stream, so that a copy that hangs can neither live on nor keep the orchestrator's pipe open.
+static void child_prologue(bool keep_result_stream) {
+  signal(SIGALRM, SIG_DFL);
+  alarm(25);
+  if (!keep_result_stream && g_out) close(fileno(g_out));
+}
 static void (*g_exit_probe)() = nullptr;  // "end-of-run hook of the host program", see OP_EXIT_HERE
 static void on_exit_hook() {
   // This handler is registered before the simulator's first library call, like an application's own end-of-run hook:
